@@ -7,7 +7,9 @@
     txt   unparseProgram (parse text)            re    outcome of parsing txt again
     fix   second unparse = first                 tree  second tree = first / = norm first / neither
     wf    every expression of the program is in the proven image (Roundtrip.wf) and the statement-level
-          side conditions hold            lex   every expression's text scans to `toksExpr`
+          side conditions hold            lex   every expression's text scans to `toksExpr`, every DO
+                                                statement's text to `toksDo`
+    kf    regions of the recorded findings the program lies in (wrapped integers, 17-digit decimals, fused print items)
     beh   both trees run through the interpreter model: outcome, output, variables equal
 -/
 import BlocV.Proto
@@ -73,8 +75,9 @@ def regions (p : List PStmt) : List String :=
   let es := ss.flatMap ownExprs
   (if es.any hasNegInt then ["C12.wrapped_integer_literal"] else []) ++
   (if es.any hasNum17 then ["C12.decimal_16_digits"] else []) ++
-  (if ss.any (fun s => match s with | .print a => printAdj a | .put a => printAdj a | _ => false) then ["C12.print_items_fuse"] else []) ++
-  (if ss.any (fun s => match s with | .doS e => doHead e | _ => false) then ["C12.do_without_keyword"] else [])
+  (if ss.any (fun s => match s with | .print a => printAdj a | .put a => printAdj a | _ => false) then ["C12.print_items_fuse"] else [])
+  -- C12.do_without_keyword (`Roundtrip.doHead`) is repaired (1a89173) and no region any more: a DO statement
+  -- that does not load again is reported with `kf=-`, i.e. as a violation.
 
 /-- the proven image: every expression well formed; statement-level side conditions of the round trip -/
 def progWf (p : List PStmt) : Bool :=
@@ -82,7 +85,10 @@ def progWf (p : List PStmt) : Bool :=
   (ss.flatMap ownExprs).all wf && (regions p).isEmpty
 
 def lexOk (p : List PStmt) : Bool :=
-  ((allStmts p).flatMap ownExprs).all fun e => tokensOf (unparseExpr e ++ [59]) == toksExpr e ++ [ch 59]
+  let ss := allStmts p
+  (ss.flatMap ownExprs).all (fun e => tokensOf (unparseExpr e ++ [59]) == toksExpr e ++ [ch 59]) &&
+  -- the text of a saved DO statement scans to the keyword + the expression's tokens (domain of `stmt_do_roundtrip`)
+  ss.all (fun s => match s with | .doS e => tokensOf (unparseStmt 0 (.doS e) ++ [59]) == toksDo e | _ => true)
 
 def showRun (r : RunResult) : String :=
   let outc := match r.outcome with
